@@ -139,7 +139,7 @@ pub fn array_shape_edits(j: &Value) -> Vec<(String, Value)> {
 /// +1 / -1 / zero plus, for every modulus the recipient knows, the same residue class with another representative (v + N).
 pub fn leaf_perturbations_mod(i: &Integer, moduli: &[(&str, &Integer)]) -> Vec<(String, Integer)> {
     let mut v: Vec<(String, Integer)> = leaf_perturbations(i).into_iter().map(|(a, b)| (a.to_string(), b)).collect();
-    for (nm, n) in moduli { v.push((format!("+{}", nm), i.clone() + *n)); }
+    for (nm, n) in moduli { v.push((format!("+{}", nm), i.clone() + *n)); v.push((format!("-{}", nm), i.clone() - *n)); }
     v
 }
 
